@@ -434,6 +434,37 @@ CHECKS = [
 
 ALL = [f"C{i:02d}" for i in range(1, 21)]
 _claimed = {c["property_id"] for c in CHECKS}
+# Second tie for the decision logic of Scores / roc_curve: tables regenerated from the source on every run
+# (harness/dectables.py, lean/SA/Model/DecTables.lean, lean/SA/Theorems/DecTables.lean).
+_DECTABLES = {
+ "C01": "the table of Scores.cm (per score_class x equal_class: searchsorted side, below/above -> tp/fn/fp/tn, easy count per cell)",
+ "C02": "the tables of the twelve threshold_at_<name> wrappers (array, emptiness guard, increasing, ratio_class, method passed on, "
+        "rescaled target as an expression), of _threshold_at_ratio (48 rows: left_continuous, number of `1 - target` reflections, "
+        "method reversal) and of _invert_increasing_function (6 rows: 1/N shift, floor/ceil index or linear, the two sentinel "
+        "stores, the target each is decided on, and their order)",
+ "C03": "the tables of the threshold_at_<name> wrappers (clipped rescaling), of _threshold_at_ratio and of "
+        "_invert_increasing_function (sentinel stores `<= 0` / `>= 1`, the target each is decided on, their order)",
+ "C08": "the tables of Scores.swap (fields exchanged, flags flipped, is_sorted), Scores.cm, _threshold_at_ratio and "
+        "_invert_increasing_function",
+ "C09": "the easy-sample rescaling rows of the threshold_at_<name> wrappers (ratio properties inlined: which hard ratio / easy "
+        "count, subtraction before division, clip bounds)",
+ "C15": "the tables of _find_support_thresholds (9 x_axis values x score_class: ValueError / reversed) and of roc() (rates "
+        "evaluated at the support thresholds)",
+}
+for _c in CHECKS:
+    if _c["property_id"] in _DECTABLES:
+        _c["level_claimed"]["text"] += (
+            " DECISION TABLES regenerated from /repo's source on every run: harness/dectables.py (Python ast, partial evaluation "
+            "over the flag domain, helper functions / lookup tables / closures followed) extracts " + _DECTABLES[_c["property_id"]] +
+            "; a generated Lean file states `checkTables translated = <true, [], covered>` and the kernel checks it (decide +kernel, "
+            "cached on the generated text). SA/Theorems/DecTables.lean proves that a row equal to the model's row denotes the model's "
+            "function for ALL inputs (cm_bridge, cm_bridge_count, swap_bridge, wrap_bridge, norm_bridge, inv_bridge, threshold_bridge, "
+            "orient_bridge, rocRow_eq_model, checkTables_sound). A row that fits the IR and differs from the model's is a broken proof "
+            "obligation naming function, flag row and both rows; a row the translator cannot evaluate is 'not covered' (evidence only).")
+        _c["level_note"] += (" The translator harness/dectables.py (Python -> table IR) is trusted; rescaling expressions that differ "
+                             "from the model's syntactically are compared at probe points only (differ -> mismatch, agree -> not covered).")
+        _c["technique"] += " + decision tables regenerated from the source by a translator and kernel-checked each run"
+
 NOT_APPLICABLE = [
  {"property_id": p, "reason": "not yet claimed: model/theorems/correspondence for this property are still being built (see DESIGN.md §5 for the plan); the technique is applicable"}
  for p in ALL if p not in _claimed
